@@ -2,6 +2,7 @@ import Driver.Util
 import ClairModel.Model.TarFS
 import ClairModel.Model.TarFSExtract
 import ClairModel.Model.TarFSDir
+import ClairModel.Model.LayerFS
 
 /-
   Line protocol of property C11 (see go/internal/c11):
@@ -17,6 +18,11 @@ import ClairModel.Model.TarFSDir
     walk <subs> <cap>                       -> fs.WalkDir listing, at most <cap> visits
     page <subs> <path> <n1,n2,...>          -> Open, then ReadDir(n1), ReadDir(n2), ... on the one handle
     readfile <subs> <path>                  -> io/fs.ReadFile
+    linit <mediatype> <digest-ok>           -> Layer.Init over the members: ok | err:<class>
+    lfs <cap>                               -> Layer.FS, then fs.WalkDir over what it returns
+    lreader                                 -> Layer.Reader: ok | err:other
+    lfiles <p1,p2,...> <cap>                -> Layer.Files
+    lclose                                  -> Layer.Close: ok | err:other | panic
     fn <name> <args...>                     -> a standard-library function of Model/TarFSPath
 -/
 namespace Driver.C11
@@ -25,6 +31,7 @@ open ClairModel.TarFS
 structure St where
   ms : List Member := []      -- newest first
   fs : Option FS := none
+  layer : LayerSt := {}
 
 def fnv (bs : List UInt8) : UInt32 :=
   bs.foldl (fun h b => (h ^^^ b.toUInt32) * 16777619) 2166136261
@@ -207,6 +214,33 @@ def stepLine (s : St) (l : String) : St × String :=
     | .ok fs => ({ s with fs := some fs }, s!"ok {fs.inodes.length} {fs.lookup.length}")
     | .error e => ({ s with fs := none }, errName e)
   | "fn" :: rest => (s, fnLine rest)
+  | ["linit", mt, dg] =>
+    match Driver.unhex mt with
+    | none => (s, "bad-op")
+    | some mtb =>
+      let (st, e) := layerInit s.layer (String.fromUTF8! (ByteArray.mk mtb.toArray)) (dg == "1") s.ms.reverse
+      ({ s with layer := st }, match e with
+        | none => "ok"
+        | some (.view e) => errName e
+        | some _ => "err:other")
+  | ["lfs", cap] =>
+    match layerFS s.layer, cap.toNat? with
+    | .ok fs, some cap => (s, "ok " ++ renderWalk (walkDir fs cap))
+    | .error _, some _ => (s, "err:other")
+    | _, none => (s, "bad-op")
+  | ["lreader"] => (s, match layerReader s.layer with | none => "ok" | some _ => "err:other")
+  | ["lclose"] =>
+    let (st, r) := layerClose s.layer
+    ({ s with layer := st }, match r with | .ok => "ok" | .err => "err:other" | .panic => "panic")
+  | ["lfiles", ps, cap] =>
+    match layerFS s.layer, (ps.splitOn ",").mapM Driver.unhex, cap.toNat? with
+    | .ok fs, some paths, some cap =>
+      match layerFiles fs paths cap with
+      | .found l => (s, renderList ((l.map fun (k, d) => s!"{Driver.hex k}:{d.length}:{fnv d}").mergeSort strLe))
+      | .notFound => (s, "notfound")
+      | .err _ => (s, "err")
+    | .error _, _, _ => (s, "err:other")
+    | _, _, _ => (s, "bad-op")
   | [q, chain, arg] =>
     match s.fs with
     | none => (s, "no-fs")
